@@ -744,6 +744,54 @@ func (g *TxGen) proposal(t *rapid.T) *governance.ProposalContent {
 	return pc
 }
 
+// GenVaultSubcallGas builds (when a vault with a known admin exists) a vault.AuthorizeAction by one of the vault's
+// admins that carries an ExecuteMessage action - a call into the staking application - with a gas limit drawn around
+// the point where the vault's own operation is paid for and the inner call runs out: every exhaustion point includes
+// the ones INSIDE a nested call. nil when no such vault exists.
+func (g *TxGen) GenVaultSubcallGas(t *rapid.T) *TxDesc {
+	if len(g.Vaults) == 0 {
+		return nil
+	}
+	va := g.Vaults[rapid.IntRange(0, len(g.Vaults)-1).Draw(t, "scVault")]
+	vl := g.vaultInfo[va]
+	if vl == nil || len(vl.AdminAuthority.Addresses) == 0 {
+		return nil
+	}
+	a := g.actorByAddr(vl.AdminAuthority.Addresses[rapid.IntRange(0, len(vl.AdminAuthority.Addresses)-1).Draw(t, "scAdmin")])
+	if a == nil {
+		return nil
+	}
+	acct := g.V.Account(a.Addr)
+	to := g.pickActor(t, "scTo")
+	var act vault.Action
+	if rapid.Bool().Draw(t, "scWithdraw") {
+		act.ExecuteMessage = &vault.ActionExecuteMessage{Method: staking.MethodWithdraw, Body: cbor.Marshal(&staking.Withdraw{From: to.Addr, Amount: q(uint64(rapid.IntRange(0, 5).Draw(t, "scAmt")))})}
+	} else {
+		act.ExecuteMessage = &vault.ActionExecuteMessage{Method: staking.MethodTransfer, Body: cbor.Marshal(&staking.Transfer{To: to.Addr, Amount: q(uint64(rapid.IntRange(0, 5).Draw(t, "scAmt")))})}
+	}
+	body := &vault.AuthorizeAction{Vault: va, Nonce: vl.Nonce, Action: act}
+	nonce := acct.General.Nonce + g.nonceAdd[a.Addr]
+	tx := transaction.NewTransaction(nonce, &transaction.Fee{Gas: 0}, vault.MethodAuthorizeAction, body)
+	est, err := g.V.R.Srv.EstimateGas(a.Signer.Public(), tx)
+	if err != nil {
+		return nil
+	}
+	// the estimate covers the whole execution; limits from "vault operation just paid" to "one short of everything"
+	inner := g.W.Spec.GasOp
+	gas := uint64(est) + 64*g.W.Spec.GasTxByte
+	if inner > 0 {
+		k := rapid.Uint64Range(0, inner+64*g.W.Spec.GasTxByte+2).Draw(t, "scShortBy")
+		if k <= gas {
+			gas -= k
+		}
+	}
+	d := &TxDesc{Signer: a.Name, Addr: a.Addr, Method: vault.MethodAuthorizeAction, Note: "vault authorize-action with nested call, gas around the nested call's cost", ExpectAuthOK: true,
+		Mutated: "gas-short-in-nested-call", Nonce: nonce, Gas: gas}
+	d.Raw = SignTx(a.Signer, nonce, &transaction.Fee{Gas: transaction.Gas(gas)}, vault.MethodAuthorizeAction, body)
+	g.nonceAdd[a.Addr]++
+	return d
+}
+
 // finish picks nonce, gas and fee, possibly invalidating exactly one of them, and signs.
 func (g *TxGen) finish(t *rapid.T, a *Actor, acct *staking.Account, method transaction.MethodName, body any, kind, note string) *TxDesc {
 	nonce := acct.General.Nonce + g.nonceAdd[a.Addr]
